@@ -33,6 +33,22 @@ CHECKS = [
   "technique": "runtime monitoring: differential stepwise runs (program wrapped in sub-processes vs inlined) on the real engine + reference token game at every quiescent point",
   "text": "Programs with a PRNG-chosen block wrapped in 1..3 sub-process levels are executed stepwise against the reference and differentially against the unwrapped program (same answer order, same pending requests after every step); storm runs.",
   "note": NOTE, "ref": "DESIGN.md 3/C12"},
+ {"id": "C06",
+  "technique": "runtime monitoring: enumerated event histories delivered sequentially and concurrently to the real engine, request/determination counters at quiescent points, blocked-caller census",
+  "text": "All event sequences up to length 4 over 2..3 alternatives (+stranger), sequential and concurrent delivery with determination hooks: exactly one branch continues (the first delivered one when sequential), one determination trace, instance completes, late deliveries without effect, no blocked ConsumeEvent caller.",
+  "note": NOTE, "ref": "DESIGN.md 3/C06"},
+ {"id": "C08",
+  "technique": "runtime monitoring: Do call/return histories checked with porcupine (write-once register) + blocked-caller census + observed storage/continuation counters at quiescent points",
+  "text": "Answer histories (1..3 Do calls, sequential/concurrent, payload kinds, declared/undeclared names, error handler modes, retry counts, success attempt) executed on the real engine; effective answer linearizable with 'first Do wins', no Do blocks, declared-only storage, downstream visibility, error-mode continuation counts.",
+  "note": NOTE + " porcupine v1.3.0 as history checker.", "ref": "DESIGN.md 3/C08"},
+ {"id": "C10",
+  "technique": "runtime monitoring: enumerated event/answer histories on the real engine compared with a boundary-event reference at every quiescent point; racing variants with outcome-set oracle",
+  "text": "Host task/sub-process x 1..2 boundary events x interrupting or not x all histories up to length 4, plus races of event vs answer; exception/normal path request counts compared with the reference after every step; known engine defects (recorded in known_findings.json by rule and scenario) are reported as KNOWN-FINDING.",
+  "note": NOTE, "ref": "DESIGN.md 3/C10"},
+ {"id": "C11",
+  "technique": "runtime monitoring: enumerated and PRNG event histories on the real engine compared with the reference (armed listeners) at every quiescent point, blocked-caller census for ConsumeEvent",
+  "text": "Catch events in sequence / parallel / twin listeners / behind a task / on a branch never taken, signal and message definitions, all histories up to length 4 and PRNG histories up to 8: matching armed listeners continue exactly once, nothing else reacts, delivery never blocks.",
+  "note": NOTE, "ref": "DESIGN.md 3/C11"},
 ]
 
 _claimed = {c["id"] for c in CHECKS}
